@@ -238,6 +238,24 @@ impl Property for C03 {
     fn max_shrink_iters(&self) -> u32 {
         600
     }
+    fn extra_cases(&self, tier: Tier) -> Vec<Case03> {
+        // exhaustive: every fork tree (shape x arrival order) x difficulties in {1,2,3} x thresholds 1..3
+        let mut v = vec![];
+        let nmax = match tier {
+            Tier::Quick => 4,
+            Tier::Thorough => 6,
+        };
+        for n in 2..=nmax {
+            for t in 1..=3u8 {
+                let net = [Net::Mainnet, Net::Testnet, Net::Regtest][(n + t as usize) % 3];
+                if tier == Tier::Thorough && n == 6 && t == 3 {
+                    continue;
+                }
+                v.extend(crate::hist::exhaustive_trees(n, net, t).into_iter().map(Case03::Hist));
+            }
+        }
+        v
+    }
     fn run(&self, case: &Case03) -> Outcome {
         let mut out = Outcome::default();
         match case {
